@@ -671,6 +671,7 @@ func TestC04(t *testing.T) {
 	selftestHit := 0
 	fields := map[string]int{}
 	tried := map[string]int{}
+	triedShape := map[string]int{}
 	jobs := make(chan int)
 	var wg sync.WaitGroup
 	for wk := 0; wk < 12; wk++ {
@@ -717,7 +718,11 @@ func TestC04(t *testing.T) {
 						seenField[d.field] = true
 						mu.Lock()
 						tried[d.field]++
-						skip := tried[d.field] > 6 // a confirmation costs a fresh site; a few per compared field are plenty
+						// a confirmation costs a fresh site; a few per compared field and Connection shape are plenty
+						// (per shape, so that a known finding on one shape cannot use up the budget of another)
+						shape := d.field + " req" + fmt.Sprint(c.Req.Conn) + " resp" + fmt.Sprint(c.Resp.Conn)
+						triedShape[shape]++
+						skip := triedShape[shape] > 2
 						mu.Unlock()
 						if skip {
 							continue
